@@ -128,24 +128,32 @@ def main(argv=None):
     cov['known_findings_observed'] = sorted(known_hit)
     cov['violation_fingerprints'] = sorted(v['fp'] for v in new)
     write_evidence(report, level, cov, len(new))
-    if report.internal_errors:
-        for g, case, err in report.internal_errors[:5]:
-            print(f'HARNESS-ERROR group={g} case={json.dumps(case)[:300]}\n{err}', file=sys.stderr)
-        print(f'{pid}: {len(report.internal_errors)} harness errors - no verdict', file=sys.stderr)
-        return 2
     for fpat, (e, v) in sorted(known_hit.items()):
         print(f"KNOWN-FINDING: property={pid} {e['what']} [fingerprint {fpat}; seen {v['count']}x]")
     rc = 0
+    unreproducible = []
     for v in new:
         path = write_replay(pid, v)
-        # a violation must reproduce from a plain replay before it is reported
-        ok = confirm(mod, v)
-        if not ok:
-            print(f'HARNESS-ERROR: violation {v["fp"]} did not reproduce on replay ({path})', file=sys.stderr)
-            return 2
+        # a violation must reproduce from a plain replay (twice) before it is reported
+        if not confirm(mod, v):
+            unreproducible.append((v, path))
+            continue
         print(f'VIOLATION property={pid} replay={path}')
         print(f'  fingerprint={v["fp"]} count={v["count"]}\n  {v["msg"]}')
         rc = 1
+    if report.internal_errors:
+        for g, case, err in report.internal_errors[:5]:
+            print(f'HARNESS-ERROR group={g} case={json.dumps(case)[:300]}\n{err}', file=sys.stderr)
+    for v, path in unreproducible:
+        print(f'HARNESS-ERROR: violation {v["fp"]} did not reproduce on replay ({path})', file=sys.stderr)
+    if rc == 0 and (report.internal_errors or unreproducible):
+        # nothing confirmed: errors of the harness itself leave the property undecided
+        print(f'{pid}: {len(report.internal_errors)} harness errors, {len(unreproducible)} unreproducible observations - no verdict',
+              file=sys.stderr)
+        return 2
+    if rc == 1 and (report.internal_errors or unreproducible):
+        print(f'{pid}: besides the confirmed violation(s): {len(report.internal_errors)} harness errors, '
+              f'{len(unreproducible)} unreproducible observations (usually consequences of the same defect)', file=sys.stderr)
     if rc == 0 and report.vacuity_failures:
         for w in report.vacuity_failures:
             print(f'VACUOUS: {pid}: exploration did not exercise: {w}', file=sys.stderr)
